@@ -77,16 +77,36 @@ Proof.
   - destruct u as [| | | | | | | |st ps| | | | | | | | |]; try discriminate. destruct st; [|discriminate]. destruct ps; [discriminate|]. reflexivity.
 Qed.
 
-Lemma flat_inter_sobj L : forallb sobj0 L = true -> flat_inter L = L.
+Definition op0 (t : tsty) : bool := sobj0 t || is_paren t.
+
+Lemma flat_inter_sobj L : forallb op0 L = true -> flat_inter L = L.
 Proof.
   induction L as [|x L IH]; [reflexivity|]. cbn [forallb]. intros H. apply andb_true_iff in H as [H1 H2].
-  unfold flat_inter in *. cbn [flat_map]. rewrite (IH H2). destruct x; try discriminate. reflexivity.
+  unfold flat_inter in *. cbn [flat_map]. rewrite (IH H2). destruct x; try discriminate; reflexivity.
 Qed.
 
-Lemma sobj0_okop L : forallb sobj0 L = true -> Forall okop L.
+Lemma okop_paren u : okop (TParen u).
+Proof.
+  cbn [okop print]. split; [reflexivity|]. split.
+  - change (lit "(" ++ print u ++ lit ")") with ((40 :: print u) ++ 41 :: []). rewrite ends_with_app_notin; [reflexivity|].
+    intros [H|[H|[]]]; discriminate H.
+  - change (lit "(" ++ print u ++ lit ")") with (40 :: print u ++ [41]). cbn [length]. rewrite app_length. cbn [length]. lia.
+Qed.
+
+Lemma sobj0_okop L : forallb op0 L = true -> Forall okop L.
 Proof.
   induction L as [|x L IH]; cbn [forallb]; intros H; constructor; apply andb_true_iff in H as [H1 H2]; [|exact (IH H2)].
-  destruct x as [| | | | | | | |st ps| | | | | | | | |]; try discriminate. destruct st; [|discriminate]. destruct ps; [discriminate|]. cbn. discriminate.
+  destruct x as [| | | | | | | |st ps| | | | |u| | | |]; try discriminate; [|apply okop_paren]. destruct st; [|discriminate]. destruct ps; [discriminate|]. cbn. discriminate.
+Qed.
+
+(* merging neighbours keeps every operand checked *)
+Lemma merge_from_syn : forall rest cur, forallb syn_ok (cur :: rest) = true -> forallb syn_ok (merge_from cur rest) = true.
+Proof.
+  induction rest as [|x r IH]; intros cur H; [exact H|]. cbn [forallb] in H. apply andb_true_iff in H as [Hc H]. apply andb_true_iff in H as [Hx Hr].
+  assert (Hdef : forallb syn_ok (cur :: merge_from x r) = true) by (cbn [forallb]; rewrite Hc; apply IH; cbn [forallb]; rewrite Hx, Hr; reflexivity).
+  cbn [merge_from]. destruct cur as [| | | | | | | |st ps| | | | | | | | |]; try exact Hdef. destruct st; [|exact Hdef].
+  destruct x as [| | | | | | | |st qs| | | | | | | | |]; try exact Hdef. destruct st; [|exact Hdef].
+  apply IH. cbn [forallb]. rewrite Hr, andb_true_r. cbn [TsSyn.syn_ok] in Hc, Hx |- *. rewrite forallb_app, Hc, Hx. reflexivity.
 Qed.
 
 Lemma merge_all_objects : forall rest cur, sobj0 cur = true -> forallb sobj0 rest = true -> forallb syn_ok (cur :: rest) = true ->
@@ -120,15 +140,21 @@ Proof. apply Forall_impl. intros t H. exact (proj1 H). Qed.
 Lemma PQp (ps : list (phead * tsty)) : Forall (fun p => P (snd p)) ps -> Forall (fun p => Q (snd p)) ps.
 Proof. apply Forall_impl. intros t H. exact (proj1 H). Qed.
 
-Lemma sobj_facts l : forallb (fun x => is_sobj x && gshape x) l = true -> Forall Q l ->
-  forallb sobj0 (map norm l) = true /\ map print (map norm l) = map print l /\ forallb syn_ok (map norm l) = true.
+Lemma norm_op x : (is_sobj x || is_paren x) = true -> op0 (norm x) = true.
+Proof.
+  intros H. apply orb_true_iff in H as [H|H]; unfold op0; [rewrite (norm_sobj x H); reflexivity|].
+  destruct x; try discriminate H. cbn [norm is_paren]. apply orb_true_r.
+Qed.
+
+Lemma sobj_facts l : forallb (fun x => (is_sobj x || is_paren x) && gshape x) l = true -> Forall Q l ->
+  forallb op0 (map norm l) = true /\ map print (map norm l) = map print l /\ forallb syn_ok (map norm l) = true.
 Proof.
   intros H HQ. revert H. induction HQ as [|x l Hx _ IH]; cbn [forallb map]; intros H; [repeat split; reflexivity|].
   apply andb_true_iff in H as [H1 H2]. apply andb_true_iff in H1 as [Hs Hg]. destruct (Hx Hg) as [Hp Hsy]. destruct (IH H2) as (I1 & I2 & I3).
-  rewrite (norm_sobj x Hs), I1, Hp, I2, Hsy, I3. repeat split; reflexivity.
+  rewrite (norm_op x Hs), I1, Hp, I2, Hsy, I3. repeat split; reflexivity.
 Qed.
 
-Lemma merged_inter l : l <> [] -> forallb (fun x => is_sobj x && gshape x) l = true -> Forall Q l ->
+Lemma merged_inter l : l <> [] -> forallb (fun x => (is_sobj x || is_paren x) && gshape x) l = true -> Forall Q l ->
   print (norm (TMerged (TInter l))) = print (TMerged (TInter l)) /\ syn_ok (norm (TMerged (TInter l))) = true.
 Proof.
   intros Hne H HQ. destruct (sobj_facts l H HQ) as (Hs & Hp & Hsy).
@@ -137,8 +163,11 @@ Proof.
   split.
   - rewrite <- (glue_is_structural_merge _ HL (sobj0_okop _ Hs)).
     change (print (TMerged (TInter (map norm l)))) with (glue (map print (map norm l))). rewrite Hp. reflexivity.
-  - destruct (map norm l) as [|c r]; [contradiction|]. cbn [forallb] in Hs. apply andb_true_iff in Hs as [Hc Hr].
-    destruct (merge_all_objects r c Hc Hr Hsy) as (qs & Hm & Hq). cbn [merge_adjacent]. rewrite Hm. exact Hq.
+  - destruct (map norm l) as [|c r]; [contradiction|]. cbn [merge_adjacent]. pose proof (merge_from_syn r c Hsy) as Hm.
+    unfold inter_of. destruct (merge_from c r) as [|y [|z m]] eqn:Em.
+    + exfalso. exact (merge_from_nonempty c r Em).
+    + cbn [forallb] in Hm. rewrite andb_true_r in Hm. exact Hm.
+    + cbn [TsSyn.syn_ok is_nil negb andb]. exact Hm.
 Qed.
 
 Lemma merged_unwrap x : is_sobj x = true -> gshape x = true -> Q x ->
@@ -314,7 +343,9 @@ Notation def_cleanb := (def_cleanb is_upper is_alnum is_numeric R).
 Notation variant_cleanb := (variant_cleanb is_upper is_alnum is_numeric R).
 Notation field_cleanb := (field_cleanb is_alnum is_numeric R).
 Notation flat_target := (flat_target is_alnum is_numeric R).
+Notation flat_target_e := (flat_target_e is_alnum is_numeric R).
 Notation flat_ok := (fun x : tsty => is_sobj x && gshape x).
+Notation flat_ok_e := (fun x : tsty => is_paren x && gshape x).
 Notation tfield_cleanb := (tfield_cleanb is_alnum is_numeric).
 Notation shape_cleanb := (shape_cleanb is_alnum is_numeric R).
 Notation param_cleanb := (param_cleanb is_alnum is_numeric).
@@ -373,7 +404,8 @@ Qed.
 Section Lib.
 Variable g : dgen.
 Hypothesis Hg : forall id d args r, lookup R id = Some d -> forallb rty_clean args = true -> g d args = Ok r ->
-  gshape (fst r) = true /\ (flat_simple d = true -> exists x, snd r = Some x /\ flat_ok x = true).
+  gshape (fst r) = true /\ (flat_simple d = true -> exists x, snd r = Some x /\ flat_ok x = true) /\
+  (flat_enum d = true -> exists x, snd r = Some x /\ flat_ok_e x = true).
 
 Lemma lib_inline_shape : forall t, rty_clean t = true -> forall a, lib_inline R g t = Ok a -> gshape a = true.
 Proof.
@@ -398,7 +430,16 @@ Proof.
   induction t; cbn [GenClean.flat_target Gen.lib_flat]; intros Hf x H; try discriminate.
   - exact (IHt Hf x H).
   - destruct (lookup R id) as [d|] eqn:Hl; [|discriminate]. apply andb_true_iff in Hf as [Hs Ha].
-    apply bind_ok in H as (r & Hr & H). destruct (Hg id d args r Hl Ha Hr) as [_ Hfl]. destruct (Hfl Hs) as (x0 & Hx0 & Hok).
+    apply bind_ok in H as (r & Hr & H). destruct (Hg id d args r Hl Ha Hr) as (_ & Hfl & _). destruct (Hfl Hs) as (x0 & Hx0 & Hok).
+    rewrite Hx0 in H. inversion H; subst. exact Hok.
+Qed.
+
+Lemma lib_flat_shape_e : forall t, flat_target_e t = true -> forall x, lib_flat R g t = Ok x -> flat_ok_e x = true.
+Proof.
+  induction t; cbn [GenClean.flat_target_e Gen.lib_flat]; intros Hf x H; try discriminate.
+  - exact (IHt Hf x H).
+  - destruct (lookup R id) as [d|] eqn:Hl; [|discriminate]. apply andb_true_iff in Hf as [Hs Ha].
+    apply bind_ok in H as (r & Hr & H). destruct (Hg id d args r Hl Ha Hr) as (_ & _ & Hfl). destruct (Hfl Hs) as (x0 & Hx0 & Hok).
     rewrite Hx0 in H. inversion H; subst. exact Hok.
 Qed.
 End Lib.
@@ -455,6 +496,12 @@ Proof.
   destruct (v_skip x) eqn:Hs; cbn [negb forallb]; [apply IH; exact H2|]. rewrite H1, Hs. cbn [negb andb]. apply IH. exact H2.
 Qed.
 
+Lemma Forall2_in_r {A B} (P : A -> B -> Prop) l l' : Forall2 P l l' -> forall y, In y l' -> exists x, In x l /\ P x y.
+Proof.
+  induction 1 as [|x y l l' Hxy _ IH]; intros z Hz; [contradiction|]. destruct Hz as [<-|Hz]; [exists x; split; [left; reflexivity | exact Hxy]|].
+  destruct (IH z Hz) as (x' & Hx' & Hp). exists x'. split; [right; exact Hx' | exact Hp].
+Qed.
+
 Lemma forallb_filter_and {A} (f g : A -> bool) l : forallb f l = true -> forallb (fun x => f x && g x) (filter g l) = true.
 Proof.
   induction l as [|x l IH]; cbn [forallb filter]; intros H; [reflexivity|]. apply andb_true_iff in H as [H1 H2].
@@ -481,12 +528,27 @@ Proof.
   intros Ha Hf. pose proof (flat_target_rsubst args Ha _ Hf) as H. unfold field_ty. destruct (snd _); [exact H|]. rewrite (flat_target_inner _ H). exact H.
 Qed.
 
+Lemma flat_target_e_rsubst args : forallb rty_clean args = true -> forall t, flat_target_e t = true -> flat_target_e (rsubst args t) = true.
+Proof.
+  intros Ha. induction t; cbn [GenClean.flat_target_e rsubst]; intros H; try discriminate.
+  - exact (IHt H).
+  - destruct (lookup R id) as [d|]; [|discriminate]. apply andb_true_iff in H as [H1 H2]. rewrite H1. cbn [andb].
+    apply map_clean; [|exact H2]. apply Forall_forall. intros x _. apply rsubst_clean. exact Ha.
+Qed.
+Lemma flat_target_e_inner t : flat_target_e t = true -> option_inner t = t.
+Proof. destruct t; try discriminate; reflexivity. Qed.
+Lemma flat_target_e_field_ty args opt fl : forallb rty_clean args = true -> flat_target_e (f_ty fl) = true -> flat_target_e (field_ty args opt fl) = true.
+Proof.
+  intros Ha Hf. pose proof (flat_target_e_rsubst args Ha _ Hf) as H. unfold field_ty. destruct (snd _); [exact H|]. rewrite (flat_target_e_inner _ H). exact H.
+Qed.
+
 Definition tag_ok (tag : option (str * str)) : bool := match tag with Some (t, n) => cleanb t && cleanb n | None => true end.
 
 Section Def.
 Variable inl flt : rty -> outcome tsty.
 Hypothesis Hinl : forall t a, rty_clean t = true -> inl t = Ok a -> gshape a = true.
 Hypothesis Hflt : forall t x, flat_target t = true -> flt t = Ok x -> flat_ok x = true.
+Hypothesis Hflt_e : forall t x, flat_target_e t = true -> flt t = Ok x -> flat_ok_e x = true.
 Variable args : list rty.
 Hypothesis Hargs : forallb rty_clean args = true.
 
@@ -503,13 +565,18 @@ Proof.
   destruct (f_inline fl); [exact (Hinl _ _ Hty Hx) | exact (name_of_shape _ Hty _ Hx)].
 Qed.
 
+Definition enum_flat (fl : field) : bool := negb (f_skip fl) && f_flatten fl && flat_target_e (f_ty fl).
+
 Lemma flat_of_shape ra opt fl x : field_cleanb ra fl && negb (f_skip fl) && is_flat fl = true ->
-  flt (field_ty args opt fl) = Ok x -> flat_ok x = true.
+  flt (field_ty args opt fl) = Ok x -> (is_sobj x || is_paren x) && gshape x = true /\ (enum_flat fl = false -> is_sobj x = true).
 Proof.
   intros Hc H. apply andb_true_iff in Hc as [Hc Hf]. apply andb_true_iff in Hc as [Hc Hs]. apply negb_true_iff in Hs.
   unfold GenClean.field_cleanb in Hc. rewrite Hs in Hc. cbn [orb] in Hc. apply andb_true_iff in Hc as [_ Hc].
-  unfold is_flat in Hf. apply andb_true_iff in Hf as [Hf _]. rewrite Hf in Hc.
-  exact (Hflt _ _ (flat_target_field_ty args opt fl Hargs Hc) H).
+  unfold is_flat in Hf. apply andb_true_iff in Hf as [Hf _]. rewrite Hf in Hc. unfold enum_flat. rewrite Hs, Hf. cbn [negb andb].
+  apply orb_true_iff in Hc as [Hc|Hc].
+  - pose proof (Hflt _ _ (flat_target_field_ty args opt fl Hargs Hc) H) as Hx. apply andb_true_iff in Hx as [H1 H2]. rewrite H1, H2. split; [reflexivity | intros _; reflexivity].
+  - pose proof (Hflt_e _ _ (flat_target_e_field_ty args opt fl Hargs Hc) H) as Hx. apply andb_true_iff in Hx as [H1 H2]. rewrite H1, H2, orb_true_r. split; [reflexivity|].
+    rewrite Hc. discriminate.
 Qed.
 
 Lemma value_ty_shape fl x : tfield_cleanb fl && negb (f_skip fl) = true -> value_ty R inl args fl = Ok x -> gshape x = true.
@@ -522,7 +589,8 @@ Qed.
 
 (* the result of a struct / struct variant with named fields; and, when nothing is flattened into it and it has a property,
    what it hands to a host that flattens it *)
-Lemma named_body_shape ra opt tag fs r : forallb (field_cleanb ra) fs = true -> tag_ok tag = true ->
+Lemma named_body_shape ra opt tag fs r : forallb (field_cleanb ra) fs = true ->
+  (existsb enum_flat fs = false \/ existsb (fun f => negb (f_skip f) && negb (f_flatten f)) fs = true) -> tag_ok tag = true ->
   bind (omap_list (prop_of is_alnum is_numeric R inl args ra opt) (filter (fun fl => negb (is_flat fl)) (live fs))) (fun props =>
   bind (omap_list (fun fl => flt (field_ty args opt fl)) (filter is_flat (live fs))) (fun flats =>
   let props := match tag with
@@ -539,16 +607,29 @@ Lemma named_body_shape ra opt tag fs r : forallb (field_cleanb ra) fs = true -> 
   gshape (fst r) = true /\
   (filter is_flat (live fs) = [] -> (tag <> None \/ live fs <> []) -> exists x, snd r = Some x /\ flat_ok x = true).
 Proof.
-  intros Hc Htag H. apply bind_ok in H as (props & Hp & H). apply bind_ok in H as (flats & Hf & H).
+  intros Hc Hhost Htag H. apply bind_ok in H as (props & Hp & H). apply bind_ok in H as (flats & Hf & H).
   apply omap_list_ok in Hp. apply omap_list_ok in Hf.
   assert (Hprops : forallb (fun p => head_okb (fst p) && gshape (snd p)) props = true).
   { refine (Forall2_forallb_in _ (fun fl => field_cleanb ra fl && negb (f_skip fl) && negb (is_flat fl)) _ _ _ _ _ Hp).
     - intros x y Hx Hy. exact (prop_of_shape ra opt x y Hx Hy).
     - apply (forallb_filter_and (fun fl => field_cleanb ra fl && negb (f_skip fl)) (fun fl => negb (is_flat fl))). apply forallb_live. exact Hc. }
-  assert (Hflats : forallb (fun x => is_sobj x && gshape x) flats = true).
+  assert (Hflats : forallb (fun x => (is_sobj x || is_paren x) && gshape x) flats = true).
   { refine (Forall2_forallb_in _ (fun fl => field_cleanb ra fl && negb (f_skip fl) && is_flat fl) _ _ _ _ _ Hf).
-    - intros x y Hx Hy. exact (flat_of_shape ra opt x y Hx Hy).
+    - intros x y Hx Hy. exact (proj1 (flat_of_shape ra opt x y Hx Hy)).
     - apply (forallb_filter_and (fun fl => field_cleanb ra fl && negb (f_skip fl)) is_flat). apply forallb_live. exact Hc. }
+  (* without a property of its own the host flattens structs only *)
+  assert (Hlone : props = [] -> forall x, In x flats -> is_sobj x = true).
+  { intros -> x Hx. inversion Hp as [Hl|]. destruct Hhost as [Hno|Hown].
+    - destruct (Forall2_in_r _ _ _ Hf x Hx) as (fl & Hin & Hfx).
+      apply filter_In in Hin as [Hlive Hfl]. unfold live in Hlive. apply filter_In in Hlive as [Hfs Hsk].
+      rewrite forallb_forall in Hc.
+      assert (Hcond : field_cleanb ra fl && negb (f_skip fl) && is_flat fl = true) by (rewrite (Hc fl Hfs), Hsk, Hfl; reflexivity).
+      apply (proj2 (flat_of_shape ra opt fl x Hcond Hfx)).
+      destruct (enum_flat fl) eqn:Ee; [|reflexivity]. assert (existsb enum_flat fs = true) by (apply existsb_exists; exists fl; auto). congruence.
+    - exfalso. apply existsb_exists in Hown as (f & Hfin & Hf0). apply andb_true_iff in Hf0 as [Hsk Hnf]. apply negb_true_iff in Hnf.
+      assert (Hin : In f (filter (fun fl => negb (is_flat fl)) (live fs))).
+      { apply filter_In. split; [unfold live; apply filter_In; split; assumption|]. unfold is_flat. rewrite Hnf. reflexivity. }
+      rewrite <- Hl in Hin. contradiction. }
   assert (Htagp : forall t n, tag = Some (t, n) -> head_okb (quoted_head t) && cleanb n = true).
   { intros t n ->. cbn [tag_ok] in Htag. apply andb_true_iff in Htag as [Ht Hn]. rewrite (quoted_head_ok is_alnum is_numeric t Ht), Hn. reflexivity. }
   destruct flats as [|x1 flats'].
@@ -567,7 +648,7 @@ Proof.
     cbn [forallb] in Hflats. apply andb_true_iff in Hflats as [Hx1 Hfl'].
     destruct tag as [[t n]|]; [|destruct props as [|p ps]]; [| destruct flats' as [|x2 flats'']|]; cbv beta zeta iota in H; inversion H; subst r; cbn [fst].
     + cbn [GenClean.gshape is_nil negb andb forallb is_sobj fst snd]. rewrite (Htagp t n eq_refl), Hprops, Hx1, Hfl'. reflexivity.
-    + cbn [GenClean.gshape]. exact Hx1.
+    + cbn [GenClean.gshape]. apply andb_true_iff in Hx1 as [_ Hg1]. rewrite (Hlone eq_refl x1 (or_introl eq_refl)), Hg1. reflexivity.
     + cbn [GenClean.gshape is_nil negb andb forallb]. cbn [forallb] in Hfl'. rewrite Hx1, Hfl'. reflexivity.
     + cbn [forallb] in Hprops. cbn [GenClean.gshape is_nil negb andb forallb is_sobj fst snd]. rewrite Hprops, Hx1, Hfl'. reflexivity.
 Qed.
@@ -588,7 +669,10 @@ Proof.
       * intros x y Hx Hy. exact (value_ty_shape x y Hx Hy).
       * apply forallb_live. exact Hc.
   - assert (G : (fs = [] /\ tag = None) \/ (gshape (fst r) = true /\ (filter is_flat (live fs) = [] -> (tag <> None \/ live fs <> []) -> exists x, snd r = Some x /\ flat_ok x = true))).
-    { destruct fs as [|f0 fs0]; destruct tag as [[t n]|]; try (right; exact (named_body_shape ra opt _ _ r Hc Htag H)). left. split; reflexivity. }
+    { apply andb_true_iff in Hc as [Hc Hh].
+      assert (Hhost : existsb enum_flat fs = false \/ existsb (fun f => negb (f_skip f) && negb (f_flatten f)) fs = true).
+      { apply orb_true_iff in Hh as [Hh|Hh]; [left; apply negb_true_iff in Hh; exact Hh | right; exact Hh]. }
+      destruct fs as [|f0 fs0]; destruct tag as [[t n]|]; try (right; exact (named_body_shape ra opt _ _ r Hc Hhost Htag H)). left. split; reflexivity. }
     destruct G as [[-> ->]|[G1 G2]].
     + inversion H. split; [reflexivity|]. intros fs' E _ [Hn|Hn]; [contradiction Hn; reflexivity | inversion E; subst fs'; contradiction Hn; reflexivity].
     + split; [exact G1|]. intros fs' E. inversion E; subst fs'. exact G2.
@@ -636,43 +720,57 @@ Proof.
   unfold live. induction fs as [|x l IH]; cbn [existsb filter]; intros H; [discriminate|]. destruct (negb (f_skip x)); [discriminate|]. apply IH. exact H.
 Qed.
 
+Lemma existsb_live_variants vs : existsb (fun v => negb (v_skip v)) vs = true -> live_variants vs <> [].
+Proof.
+  unfold live_variants. induction vs as [|x l IH]; cbn [existsb filter]; intros H; [discriminate|]. destruct (negb (v_skip x)); [discriminate|]. apply IH. exact H.
+Qed.
+
 Lemma def_body_shape d r : def_cleanb d = true ->
   def_body is_upper is_alnum is_numeric R inl flt d args = Ok r ->
-  gshape (fst r) = true /\ (flat_simple d = true -> exists x, snd r = Some x /\ flat_ok x = true).
+  gshape (fst r) = true /\ (flat_simple d = true -> exists x, snd r = Some x /\ flat_ok x = true) /\
+  (flat_enum d = true -> exists x, snd r = Some x /\ flat_ok_e x = true).
 Proof.
   intros Hc H. destruct (def_clean_parts d Hc) as (Hnt & Hdn & Hcn & _). unfold GenClean.def_cleanb in Hc. apply andb_true_iff in Hc as [_ Hc].
   unfold def_body in H. destruct (c_type (attrs_of d)); [discriminate Hnt|]. destruct (c_as (attrs_of d)) as [u|] eqn:Has.
-  - apply bind_ok in H as (x & Hx & H). inversion H. cbn [fst]. split; [exact (Hinl _ _ (rsubst_clean args Hargs _ Hc) Hx)|].
-    intros Hfs. destruct d as [a [|fs|fs]|]; try discriminate Hfs. cbn [attrs_of] in Has. unfold flat_simple in Hfs. rewrite Has in Hfs. rewrite andb_false_r in Hfs. discriminate Hfs.
+  - apply bind_ok in H as (x & Hx & H). inversion H. cbn [fst]. split; [exact (Hinl _ _ (rsubst_clean args Hargs _ Hc) Hx)|]. split.
+    + intros Hfs. destruct d as [a [|fs|fs]|]; try discriminate Hfs. cbn [attrs_of] in Has. unfold flat_simple in Hfs. rewrite Has in Hfs. rewrite andb_false_r in Hfs. discriminate Hfs.
+    + intros Hfe. destruct d as [|a tg raf vs]; try discriminate Hfe. cbn [attrs_of] in Has. unfold flat_enum in Hfe. rewrite Has in Hfe. rewrite andb_false_r in Hfe. discriminate Hfe.
   - destruct d as [a s|a tg raf vs].
     + apply andb_true_iff in Hc as [Ht Hs].
       assert (Htag : tag_ok (match c_tag a with Some t => Some (t, ts_ident (DStruct a s)) | None => None end) = true).
       { destruct (c_tag a) as [t|]; cbn [tag_ok]; [|reflexivity]. rewrite Ht, Hcn. reflexivity. }
-      destruct (shape_gen_shape _ _ _ _ r Hs Htag H) as [G1 G2]. split; [exact G1|].
+      destruct (shape_gen_shape _ _ _ _ r Hs Htag H) as [G1 G2]. split; [exact G1|]. split; [|discriminate].
       intros Hfs. destruct s as [|fs|fs]; try discriminate Hfs. unfold flat_simple in Hfs.
       apply andb_true_iff in Hfs as [Hfs Hsome]. apply andb_true_iff in Hfs as [_ Hnofl].
       apply (G2 fs eq_refl (flat_simple_live fs Hnofl)). apply orb_true_iff in Hsome as [Hs1|Hs1].
       * left. destruct (c_tag a); [discriminate | discriminate Hs1].
       * right. apply existsb_live. exact Hs1.
-    + split; [|discriminate]. apply andb_true_iff in Hc as [Htg Hvs]. destruct vs as [|v0 vs0].
-      * inversion H. cbn [fst prim]. apply prim_shape; reflexivity.
-      * apply bind_ok in H as (l & Hl & H). destruct l as [|x l]; inversion H; cbn [fst prim]; [apply prim_shape; reflexivity|].
-        cbn [GenClean.gshape is_nil negb andb]. apply omap_list_ok in Hl.
-        refine (Forall2_forallb_in _ (fun v => variant_cleanb a raf v && negb (v_skip v)) _ _ _ _ _ Hl).
-        -- intros v y Hv Hy. exact (variant_gen_shape a tg raf v y Hv Htg Hy).
-        -- apply forallb_live_variants. exact Hvs.
+    + apply andb_true_iff in Hc as [Htg Hvs]. destruct vs as [|v0 vs0].
+      * inversion H. cbn [fst prim]. split; [apply prim_shape; reflexivity|]. split; [discriminate|]. intros Hfe. unfold flat_enum in Hfe. cbn [existsb] in Hfe. rewrite andb_false_r in Hfe. discriminate Hfe.
+      * apply bind_ok in H as (l & Hl & H). apply omap_list_ok in Hl.
+        assert (Hall : forallb gshape l = true).
+        { refine (Forall2_forallb_in _ (fun v => variant_cleanb a raf v && negb (v_skip v)) _ _ _ _ _ Hl).
+          - intros v y Hv Hy. exact (variant_gen_shape a tg raf v y Hv Htg Hy).
+          - apply forallb_live_variants. exact Hvs. }
+        destruct l as [|x l]; inversion H; cbn [fst snd prim].
+        -- split; [apply prim_shape; reflexivity|]. split; [discriminate|]. intros Hfe. unfold flat_enum in Hfe. apply andb_true_iff in Hfe as [_ Hex].
+           exfalso. apply (existsb_live_variants _ Hex). inversion Hl as [Hl0|]. symmetry. exact Hl0.
+        -- cbn [GenClean.gshape is_nil negb andb]. split; [exact Hall|]. split; [discriminate|]. intros _. eexists. split; [reflexivity|].
+           cbn [is_paren GenClean.gshape is_nil negb andb]. exact Hall.
 Qed.
 End Def.
 
 (* ---- the knot ---- *)
 Lemma gen_shape : forall fuel id d args r, lookup R id = Some d -> forallb rty_clean args = true ->
   gen is_upper is_alnum is_numeric R fuel d args = Ok r ->
-  gshape (fst r) = true /\ (flat_simple d = true -> exists x, snd r = Some x /\ flat_ok x = true).
+  gshape (fst r) = true /\ (flat_simple d = true -> exists x, snd r = Some x /\ flat_ok x = true) /\
+  (flat_enum d = true -> exists x, snd r = Some x /\ flat_ok_e x = true).
 Proof.
   induction fuel as [|f IH]; intros id d args r Hl Ha H; [discriminate H|]. cbn [gen] in H.
-  refine (def_body_shape _ _ _ _ args Ha d r (lookup_clean _ _ _ _ _ _ HR Hl) H).
+  refine (def_body_shape _ _ _ _ _ args Ha d r (lookup_clean _ _ _ _ _ _ HR Hl) H).
   - intros t a Ht Hi. exact (lib_inline_shape _ IH t Ht a Hi).
   - intros t x Ht Hx. exact (lib_flat_shape _ IH t Ht x Hx).
+  - intros t x Ht Hx. exact (lib_flat_shape_e _ IH t Ht x Hx).
 Qed.
 
 (* C14: the text of everything the derive builds there is the text of its structural meaning (the flatten rewrites
